@@ -1222,6 +1222,22 @@ def shrink_task(f):
     if pred([v]) is None:
         return ("%s:unstable:%s" % (F, code), dict(f, note="failure did not reproduce in isolation"), True)
     m = minimise(F, v, pred)
+    if want == "in" and not f.get("derived"):
+        # several atoms left (typically two keys that collide after the round trip): if one of them
+        # fails on its own, report that atom - it is the cause, the collision its consequence
+        atoms = []
+        for x in walk(m):
+            if isinstance(x, Str) and x.text and valid_text(x) and x not in (S("k"), S("a"), S("1"), S("")) and x not in atoms:
+                atoms.append(x)
+        if len([x for x in walk(m) if not isinstance(x, (list, Obj))]) > 1 and len(atoms) >= 1 and freeze(m) not in [freeze(y) for x in atoms for y in ctx_values(F, x)]:
+            for x in atoms:
+                alone = ctx_values(F, x)[0]
+                if classify(F, alone)[0] != "in":
+                    continue
+                bad, _consumer = verdict(F, alone, "in", "", path, run_one(c, F, alone, path))
+                if bad:
+                    return shrink_task(dict(f, value=enc(alone), code=bad[0], detail=bad[1], derived=True,
+                                            seen_as=show(m, 300)))
     if want == "reject":
         key = "%s:outside:%s" % (F, f["reason"])
     else:
@@ -1232,7 +1248,8 @@ def shrink_task(f):
     wit = {"format": F, "path": path, "failure": code, "minimal_value": show(m, 400), "minimal_value_wire": enc(m),
            "written": (o[1] or b"").decode("utf-8", "replace") if F != "cbor" else (o[1] or b"").hex(),
            "outcome": o[0], "read_back_or_error": show(o[2], 300) if o[0] == "ok" else str(o[2])[:300],
-           "first_seen_in": show(v, 300), "first_detail": f["detail"], "domain_class": f["cls"], "class_reason": f["reason"]}
+           "first_seen_in": f.get("seen_as") or show(v, 300), "first_detail": f["detail"], "domain_class": f["cls"],
+           "class_reason": f["reason"]}
     return (key, wit, False)
 
 
